@@ -74,7 +74,7 @@ func getRecyclerOfResource(resource string) *Recycler {
 			if rule.RecycleIntervalS == 0 {
 				recycler.interval = 10 * time.Minute
 			} else {
-				recycler.interval = time.Duration(rule.RecycleIntervalS * 1e9)
+				recycler.interval = time.Duration(rule.RecycleIntervalS) * time.Second
 			}
 		}
 		recyclers[resource] = recycler
